@@ -181,7 +181,11 @@ class LinalgLog:
 
 
 def rel(a: torch.Tensor, b: torch.Tensor) -> float:
+    if a.shape != b.shape:
+        return float('inf')          # a shape mismatch is a mismatch
     a, b = a.double(), b.double()
+    if not torch.isfinite(a).all():
+        return float('inf')
     return ((a - b).norm() / max(b.norm().item(), 1e-30)).item()
 
 
@@ -294,6 +298,7 @@ def execute(cfg: kaisa.Config, hist: list[dict[str, Any]], seed: int,
                     torch.save(sd, buf)
                     buf.seek(0)
                     rr.ckpt = torch.load(buf, weights_only=False)
+                    rr.ckpt_live = sd
                     rr.saved_exact = {
                         'steps': rr.pre.steps,
                         'hp': {'damping': rr.pre._damping,
